@@ -295,6 +295,9 @@ func (h NativeHashRecord[K, V]) Equal(thread *Thread, other value.Value) (bool, 
 	switch o := other.SafeAsReference().(type) {
 	case NativeHashRecord[K, V]:
 		return h.EqualNative(thread, o)
+	case HashMap:
+		// a map is not a record (`=~` compares across the two)
+		return false, value.Undefined
 	case HashRecord:
 		return HashRecordEqual(thread, o, h)
 	}
